@@ -10,6 +10,12 @@ import json, os, subprocess, sys
 
 ROOT = os.path.dirname(os.path.dirname(os.path.abspath(__file__)))
 checks = json.load(open(os.path.join(ROOT, "bin/checks.json")))
+import glob
+for frag in sorted(glob.glob(os.path.join(ROOT, "harness/vh-*/checks.json"))):
+    try:
+        checks.update(json.load(open(frag)))
+    except Exception as e:
+        print("bad fragment", frag, e)
 na_path = os.path.join(ROOT, "bin/not_applicable.json")
 na_reasons = json.load(open(na_path)) if os.path.exists(na_path) else {}
 props = [json.loads(l) for l in open(os.path.join(ROOT, "properties.jsonl")) if l.strip()]
